@@ -6,9 +6,9 @@
    internal/pkg/model/archive/NonDominanceModelArchive.go it calls (AttemptToArchiveState,
    newModelStateCannotBeArchived, ForceModelStateIntoArchive, SelectRandomModel, IsNonDominant).
 
-   A solution is an [entry]: the action set (list of booleans, as compressed by ModelCompressor) and
-   its decision-variable vector in sorted-key order (exact rationals, as in C17's model, whose
-   [dominates] is reused).  Modelling assumption (discharged by C01 for the catchment model): the
+   A solution is an [NdArchive.entry]: the action set (list of booleans, as compressed by
+   ModelCompressor) and its decision-variable vector in sorted-key order (exact rationals, as in C17's
+   model).  The archive operations are NOT transcribed again here: they are C05's (NdArchive.v).  Modelling assumption (discharged by C01 for the catchment model): the
    vector of a model is a function of its action set, so synchronising / decompressing the current
    model to a solution's action set gives it that solution's vector.
 
@@ -17,103 +17,18 @@
    pick.  Go panics (length-mismatched vectors in Dominates, failed assertion in selectRandomIndex,
    "Dominance detected ...") are [Panic].  No proofs in this file. *)
 From Coq Require Import List ZArith NArith QArith Bool Floats.
-From Crem Require Import Base.Res Dominance SuppRtbFloat.
+From Crem Require Import Base.Res Dominance NdArchive SuppRtbFloat.
 Import ListNotations.
 
-Record entry := mk_entry { e_vec : list Q; e_acts : list bool }.
+(* The archive is C05's model NdArchive.v -- the transcription of NonDominanceModelArchive.go that is tied
+   to the real archive by C05's own correspondence check and carries the invariant theorems
+   (NdArchiveProofs.v).  [entry] = (objective vector, action set); [attempt] = AttemptToArchiveState,
+   [force] = ForceModelStateIntoArchive, [is_non_dominant] = IsNonDominant (as written: the inner loop
+   never looks at the last entry), [sres] = archive.StorageResult in iota order. *)
+Notation mk_entry := mkE (only parsing).
+Notation verdict := sres (only parsing).
 
-Fixpoint acts_eqb (a b : list bool) : bool :=
-  match a, b with
-  | [], [] => true
-  | x :: a', y :: b' => Bool.eqb x y && acts_eqb a' b'
-  | _, _ => false
-  end.
-
-(* archive.StorageResult, in iota order *)
-Inductive verdict :=
-| StoredReplacingDominatedEntries
-| StoredWithNoDominanceDetected
-| RejectedWithStoredEntryDominanceDetected
-| RejectedWithDuplicateEntryDetected
-| CanBeStored
-| StoredForcingDominatingStateRemoval.
-
-Definition verdict_eqb (a b : verdict) : bool :=
-  match a, b with
-  | StoredReplacingDominatedEntries, StoredReplacingDominatedEntries
-  | StoredWithNoDominanceDetected, StoredWithNoDominanceDetected
-  | RejectedWithStoredEntryDominanceDetected, RejectedWithStoredEntryDominanceDetected
-  | RejectedWithDuplicateEntryDetected, RejectedWithDuplicateEntryDetected
-  | CanBeStored, CanBeStored
-  | StoredForcingDominatingStateRemoval, StoredForcingDominatingStateRemoval => true
-  | _, _ => false
-  end.
-
-(* newModelStateCannotBeArchived: first match in archive order; dominance is tested before duplication *)
-Fixpoint cannot_be_archived (a : list entry) (c : entry) : res verdict :=
-  match a with
-  | [] => Ok CanBeStored
-  | x :: a' =>
-      do d <- dominates (e_vec x) (e_vec c);
-      if d then Ok RejectedWithStoredEntryDominanceDetected
-      else if acts_eqb (e_acts x) (e_acts c) then Ok RejectedWithDuplicateEntryDetected
-      else cannot_be_archived a' c
-  end.
-
-(* the loop of AttemptToArchiveState: (some entry was dominated by c?, entries not dominated by c) *)
-Fixpoint split_dominated (c : entry) (a : list entry) : res (bool * list entry) :=
-  match a with
-  | [] => Ok (false, [])
-  | x :: a' =>
-      do d <- dominates (e_vec c) (e_vec x);
-      do r <- split_dominated c a';
-      if d then Ok (true, snd r) else Ok (fst r, x :: snd r)
-  end.
-
-Definition attempt (a : list entry) (c : entry) : res (verdict * list entry) :=
-  do v <- cannot_be_archived a c;
-  match v with
-  | CanBeStored =>
-      do r <- split_dominated c a;
-      if fst r then Ok (StoredReplacingDominatedEntries, snd r ++ [c])
-      else Ok (StoredWithNoDominanceDetected, a ++ [c])
-  | _ => Ok (v, a)
-  end.
-
-(* ForceModelStateIntoArchive: drop every entry that dominates c, append c *)
-Fixpoint drop_dominating (c : entry) (a : list entry) : res (list entry) :=
-  match a with
-  | [] => Ok []
-  | x :: a' =>
-      do d <- dominates (e_vec x) (e_vec c);
-      do r <- drop_dominating c a';
-      if d then Ok r else Ok (x :: r)
-  end.
-
-Definition force (a : list entry) (c : entry) : res (list entry) :=
-  do r <- drop_dominating c a; Ok (r ++ [c]).
-
-(* IsNonDominant, as written: the inner loop stops at len-2, i.e. never looks at the last entry *)
-Fixpoint any_dominance_with (x : entry) (ys : list entry) : res bool :=
-  match ys with
-  | [] => Ok false
-  | y :: ys' =>
-      do d <- dominance_present (e_vec x) (e_vec y);
-      if d then Ok true else any_dominance_with x ys'
-  end.
-
-Fixpoint pairs_dominance (a : list entry) : res bool :=
-  match a with
-  | [] => Ok false
-  | x :: a' =>
-      do d <- any_dominance_with x a';
-      if d then Ok true else pairs_dominance a'
-  end.
-
-(* the scan order of the Go loops is (i, j) lexicographic over j in i+1 .. len-2: the pairs among all
-   entries but the last, in the same order as [pairs_dominance] on [removelast a] *)
-Definition is_non_dominant (a : list entry) : res bool :=
-  res_map negb (pairs_dominance (removelast a)).
+Definition verdict_eqb (a b : verdict) : bool := Nat.eqb (sres_code a) (sres_code b).
 
 (* ---- explorer ---- *)
 
@@ -165,6 +80,17 @@ Definition change_desirable (prev : bool) (v : verdict) : bool :=
   | _ => prev
   end.
 
+(* the same switch as data, for the source-level tie (gen/Facts06.v, regenerated from the Go source) *)
+Definition all_verdicts : list verdict :=
+  [StoredReplacingDominatedEntries; StoredWithNoDominanceDetected; RejectedWithStoredEntryDominanceDetected;
+   RejectedWithDuplicateEntryDetected; CanBeStored; StoredForcingDominatingStateRemoval].
+Definition desirable_cases : list nat :=
+  map sres_code (filter (fun v => change_desirable false v) all_verdicts).
+Definition undesirable_cases : list nat :=
+  map sres_code (filter (fun v => negb (change_desirable true v)) all_verdicts).
+Definition sticky_cases : list nat :=
+  map sres_code (filter (fun v => negb (change_desirable false v) && change_desirable true v) all_verdicts).
+
 Inductive decision := AcceptDesirable | AcceptUndesirable | RevertUndesirable.
 
 Definition decision_eqb (a b : decision) : bool :=
@@ -189,10 +115,10 @@ Definition accept_phase (p : params) (s : st) (i : input) : res (verdict * decis
     let pr := accept_prob (p_kind p) (i_es i) in
     if decide pr (unitary (i_draw i)) then
       (* AcceptUndesirableChange: force into the archive; accepted; current := potential *)
-      do a2 <- force a1 (i_cand i);
+      do f <- force a1 (i_cand i);
       Ok (v, AcceptUndesirable,
-          mk_st (i_cand i) a2 (until s) (stepf s) (iter s) (last_rtb s) des true
-                StoredForcingDominatingStateRemoval pr (temp s))
+          mk_st (i_cand i) (snd f) (until s) (stepf s) (iter s) (last_rtb s) des true
+                (fst f) pr (temp s))
     else
       (* RevertLastChange: the potential model is simply ignored *)
       Ok (v, RevertUndesirable,
@@ -342,3 +268,14 @@ Definition sched_inv (p : params) (n : nat) (s : st) : Prop :=
 
 (* all decision-variable vectors have one length d (one model: d decision variables) *)
 Definition wf_len (d : nat) (e : entry) : Prop := length (e_vec e) = d.
+
+(* the archive operation one iteration performs, in C05's operation language (NdArchive.op):
+   OfferForce exactly when the undesirable candidate was accepted, Offer otherwise *)
+Definition op_of (i : input) (o : obs) : op :=
+  if decision_eqb (o_decision o) AcceptUndesirable then OfferForce (i_cand i) else Offer (i_cand i).
+
+Fixpoint ops_of (is : list input) (os : list obs) : list op :=
+  match is, os with
+  | i :: is', o :: os' => op_of i o :: ops_of is' os'
+  | _, _ => []
+  end.
